@@ -6,6 +6,7 @@ import (
 	"go/token"
 	"go/types"
 	"math/big"
+	"strconv"
 
 	"golang.org/x/tools/go/ssa"
 
@@ -459,9 +460,9 @@ func (ex *Exec) binop(st *State, op token.Token, xv, yv Val, xt types.Type, pos 
 	case token.MUL:
 		return narrow(sym.Mul(x, y))
 	case token.EQL:
-		return sym.Eq(x, y)
+		return EqInt(x, y)
 	case token.NEQ:
-		return sym.Not(sym.Eq(x, y))
+		return sym.Not(EqInt(x, y))
 	case token.LSS:
 		return Lt(x, y)
 	case token.GTR:
@@ -515,10 +516,39 @@ func Lt(x, y *sym.Term) *sym.Term {
 	return sym.App(sym.Bool, "lt", x, y)
 }
 
+// EqInt builds x == y for integers.  "z keeps only the bits of mask m" is written either `z&m == z` or `z&^m == 0`: both
+// are normalised to `0 == z & ^m`.
+func EqInt(x, y *sym.Term) *sym.Term {
+	for _, pr := range [][2]*sym.Term{{x, y}, {y, x}} {
+		a, z := pr[0], pr[1]
+		m := intOpRe.FindStringSubmatch(a.Op)
+		if m == nil || m[1] != "and" || len(a.Args) != 2 {
+			continue
+		}
+		bits, _ := strconv.Atoi(m[2])
+		for _, k := range []int{0, 1} {
+			if a.Args[k] == z && a.Args[1-k].IsConst() {
+				full := new(big.Int).Lsh(big.NewInt(1), uint(bits))
+				full.Sub(full, big.NewInt(1))
+				inv := new(big.Int).AndNot(full, a.Args[1-k].C)
+				return sym.Eq(sym.ConstI(0), IntOp("and", bits, z, sym.Const(sym.Int, inv)))
+			}
+		}
+	}
+	return sym.Eq(x, y)
+}
+
 // IntOp builds a bit-level integer operation with light simplification.
 func IntOp(name string, bits int, x, y *sym.Term) *sym.Term {
 	zero := func(t *sym.Term) bool { return t.IsConst() && t.C.Sign() == 0 }
 	switch name {
+	case "andnot":
+		// x &^ c  ==  x & ^c
+		if y.IsConst() && bits > 0 {
+			full := new(big.Int).Lsh(big.NewInt(1), uint(bits))
+			full.Sub(full, big.NewInt(1))
+			return IntOp("and", bits, x, sym.Const(sym.Int, new(big.Int).AndNot(full, y.C)))
+		}
 	case "or", "xor":
 		if zero(x) {
 			return y
